@@ -44,9 +44,10 @@ const (
 	lRemove
 	lAttachStale  // Attach re-using the client's previous Document instance of that key (documented as unsupported: must be refused)
 	lAttachBroken // Attach whose pack has a hole in the client sequence: refused, and the document is left "attaching" for the client
+	lPushOnly     // PushPull with push_only set (random words only; same rules as PushPull, nothing is pulled)
 )
 
-var c11Names = []string{"Activate", "Deactivate", "Attach", "PushPull", "Detach", "Remove", "AttachStaleInstance", "AttachBrokenPack"}
+var c11Names = []string{"Activate", "Deactivate", "Attach", "PushPull", "Detach", "Remove", "AttachStaleInstance", "AttachBrokenPack", "PushOnly"}
 
 // c11Letter is one call: Op by client C on document D (D ignored for
 // Activate/Deactivate).
@@ -242,6 +243,10 @@ func (w *c11World) step(l c11Letter) *prog.Failure {
 	cur := w.gens[l.D]
 	// PushPull needs the document attached; Detach and Remove are also allowed
 	// from the attaching state (residue of a failed attach)
+	pushOnly := l.Op == lPushOnly
+	if pushOnly {
+		l.Op = lPushPull
+	}
 	valid := s.activated && (a.status == "attached" || (a.status == "attaching" && l.Op != lPushPull))
 	// document id to address: the attachment's, else the key's current one, else a fake
 	docID := c11FakeID
@@ -380,9 +385,12 @@ func (w *c11World) step(l c11Letter) *prog.Failure {
 		switch l.Op {
 		case lPushPull:
 			var r *connect.Response[api.PushPullChangesResponse]
-			r, err = w.cli.PushPullChanges(w.ctx, connect.NewRequest(&api.PushPullChangesRequest{ClientId: w.clientID(s), DocumentId: docID, ChangePack: pack}))
+			r, err = w.cli.PushPullChanges(w.ctx, connect.NewRequest(&api.PushPullChangesRequest{ClientId: w.clientID(s), DocumentId: docID, ChangePack: pack, PushOnly: pushOnly}))
 			if err == nil {
 				resPack = r.Msg.ChangePack
+			}
+			if pushOnly {
+				w.ev["push_only_call"]++
 			}
 		case lDetach:
 			var r *connect.Response[api.DetachDocumentResponse]
@@ -399,7 +407,7 @@ func (w *c11World) step(l c11Letter) *prog.Failure {
 			}
 		}
 		w.s.WaitIdle()
-		w.logf("%v -> err=%v", l, short(err))
+		w.logf("%v%s -> err=%v", l, map[bool]string{true: " [push_only]"}[pushOnly], short(err))
 		if !valid {
 			what := "the client is not activated"
 			if s.activated {
@@ -710,6 +718,9 @@ func TestC11Random(t *testing.T) {
 			l := alpha[rapid.IntRange(0, len(alpha)-1).Draw(rt, "l")]
 			if l.Op == lDeactivate && rapid.IntRange(0, 2).Draw(rt, "keep") > 0 {
 				l = c11Letter{lAttach + rapid.IntRange(0, 5).Draw(rt, "op"), l.C, rapid.IntRange(0, 1).Draw(rt, "d")}
+			}
+			if l.Op == lPushPull && rapid.IntRange(0, 2).Draw(rt, "pushonly") == 0 {
+				l.Op = lPushOnly
 			}
 			word = append(word, l)
 		}
